@@ -1,0 +1,182 @@
+//! Verification-only loom models (compiled only with `--cfg loom --cfg penguin_rs_verif` in the
+//! crate's own test target, because the loom shim in `crate::loom` is active only there).
+//!
+//! One writer thread polls `MuxStream::poll_obtain_write_permission` once or twice while another
+//! thread plays the connection task: `acknowledge(n)` and/or `disallow_write()` in a scripted
+//! order. loom explores every interleaving of the atomic operations involved (and every value
+//! the C11 memory model allows a load to return) up to its preemption bound.
+//!
+//! The scenario comes from the environment (`VERIF_LOOM_SCENARIO=credit,polls,ops` with ops a
+//! `+`-separated list of `a1`, `a2`, `c`), so that the driver can sweep the scenario space and
+//! name the failing one.
+//
+// SPDX-License-Identifier: Apache-2.0 OR GPL-3.0-or-later
+
+use crate::EstablishedStreamData;
+use crate::loom::{Arc, AtomicBool, AtomicU32, AtomicWaker, Ordering};
+use crate::stream::MuxStream;
+use alloc::string::String;
+use alloc::vec::Vec;
+use bytes::Bytes;
+use core::task::{Context, Poll};
+use tokio::sync::mpsc;
+
+struct CountWaker(loom::sync::atomic::AtomicUsize);
+impl alloc::task::Wake for CountWaker {
+    fn wake(self: alloc::sync::Arc<Self>) {
+        self.0.fetch_add(1, Ordering::SeqCst);
+    }
+    fn wake_by_ref(self: &alloc::sync::Arc<Self>) {
+        self.0.fetch_add(1, Ordering::SeqCst);
+    }
+}
+
+#[derive(Clone, Copy, Debug, PartialEq)]
+enum Op {
+    Ack(u32),
+    Close,
+}
+
+fn mk(credit: u32) -> (MuxStream, EstablishedStreamData) {
+    let (tx, rx_frame_rx) = mpsc::channel(4);
+    let (tx_msg_tx, _tx_msg_rx) = mpsc::unbounded_channel();
+    let (dropped_flows_tx, _r) = mpsc::unbounded_channel();
+    let finish_sent = Arc::new(AtomicBool::new(false));
+    let psh = Arc::new(AtomicU32::new(credit));
+    let ww = Arc::new(AtomicWaker::new());
+    let s = MuxStream {
+        rx_frame_rx,
+        flow_id: 1,
+        dest_host: Bytes::new(),
+        dest_port: 0,
+        finish_sent: finish_sent.clone(),
+        psh_send_remaining: psh.clone(),
+        psh_recvd_since: 0,
+        writer_waker: ww.clone(),
+        buf: Bytes::new(),
+        tx_msg_tx,
+        dropped_flows_tx,
+        rwnd_threshold: 4,
+    };
+    let d = EstablishedStreamData {
+        sender: Some(tx),
+        finish_sent,
+        psh_send_remaining: psh,
+        writer_waker: ww,
+    };
+    (s, d)
+}
+
+fn scenario() -> (u32, usize, Vec<Op>, String) {
+    let raw = std::env::var("VERIF_LOOM_SCENARIO").unwrap_or_else(|_| String::from("0,1,a1"));
+    let mut it = raw.split(',');
+    let credit: u32 = it.next().and_then(|s| s.parse().ok()).unwrap_or(0);
+    let polls: usize = it.next().and_then(|s| s.parse().ok()).unwrap_or(1);
+    let ops = it
+        .next()
+        .unwrap_or("a1")
+        .split('+')
+        .filter_map(|o| match o {
+            "a1" => Some(Op::Ack(1)),
+            "a2" => Some(Op::Ack(2)),
+            "c" => Some(Op::Close),
+            _ => None,
+        })
+        .collect();
+    (credit, polls, ops, raw)
+}
+
+/// Writer ‖ connection task.
+///
+/// Oracles (all evaluated after the other thread has been joined, i.e. after every grant and the
+/// close have completed):
+///  (i)   no lost wake-up: if the *last* writer poll returned `Pending` although credit is now
+///        available or the stream is closed, the waker was invoked after that poll registered;
+///  (ii)  conservation: final credit = initial + grants - permissions obtained;
+///  (iii) a permission is never handed out for credit that was not there (no underflow / wrap);
+///  (iv)  after `disallow_write` has completed, a subsequent poll returns `None`.
+#[test]
+fn verif_loom_writer_vs_task() {
+    let (credit, polls, ops, raw) = scenario();
+    let states = alloc::sync::Arc::new(core::sync::atomic::AtomicU64::new(0));
+    let st2 = states.clone();
+    let raw_out = raw.clone();
+    let mut b = loom::model::Builder::new();
+    if let Ok(p) = std::env::var("VERIF_LOOM_PREEMPTION_BOUND") {
+        b.preemption_bound = p.parse().ok();
+    }
+    if let Ok(f) = std::env::var("VERIF_LOOM_CHECKPOINT_FILE") {
+        b.checkpoint_file = Some(f.into());
+        b.checkpoint_interval = 1;
+    }
+    b.check(move || {
+        st2.fetch_add(1, core::sync::atomic::Ordering::Relaxed);
+        let (s, d) = mk(credit);
+        let cw = alloc::sync::Arc::new(CountWaker(loom::sync::atomic::AtomicUsize::new(0)));
+        let waker = core::task::Waker::from(cw.clone());
+        let ops2 = ops.clone();
+        let t = loom::thread::spawn(move || {
+            for op in ops2 {
+                match op {
+                    Op::Ack(n) => d.acknowledge(n),
+                    Op::Close => {
+                        d.disallow_write();
+                    }
+                }
+            }
+            d
+        });
+        let cx = Context::from_waker(&waker);
+        let mut got = 0u32;
+        let mut last_pending = false;
+        let mut closed_seen = false;
+        let mut wakes_before_last = 0;
+        for _ in 0..polls {
+            wakes_before_last = cw.0.load(Ordering::SeqCst);
+            match s.poll_obtain_write_permission(&cx) {
+                Poll::Ready(Some(())) => {
+                    got += 1;
+                    last_pending = false;
+                }
+                Poll::Ready(None) => {
+                    closed_seen = true;
+                    last_pending = false;
+                }
+                Poll::Pending => last_pending = true,
+            }
+        }
+        let d = t.join().unwrap();
+        let grants: u32 = ops.iter().map(|o| if let Op::Ack(n) = o { *n } else { 0 }).sum();
+        let closed = ops.contains(&Op::Close);
+        let left = s.psh_send_remaining.load(Ordering::SeqCst);
+        // (iii) + (ii)
+        assert!(got <= credit + grants, "[{raw}] CREDIT: {got} permissions with only {credit} + {grants} units of credit");
+        assert_eq!(left, credit + grants - got, "[{raw}] CONSERVATION: final credit {left}, expected {credit} + {grants} - {got}");
+        if closed_seen {
+            assert!(closed, "[{raw}] CLOSED: poll returned None although the stream was never closed");
+        }
+        // (i)
+        if last_pending && (left > 0 || closed) {
+            let wakes = cw.0.load(Ordering::SeqCst);
+            assert!(
+                wakes > wakes_before_last,
+                "[{raw}] LOST WAKEUP: the writer's last poll returned Pending, {left} units of credit are available / closed = {closed}, and its waker was never invoked afterwards"
+            );
+        }
+        // (iv) and progress: a poll made now (everything has completed) must not be Pending
+        // when credit is available, must be None when closed
+        match s.poll_obtain_write_permission(&cx) {
+            Poll::Ready(None) => assert!(closed, "[{raw}] CLOSED: None although never closed"),
+            Poll::Ready(Some(())) => {
+                assert!(!closed, "[{raw}] CLOSED: a permission was obtained after disallow_write completed");
+                assert!(left > 0, "[{raw}] CREDIT: permission without credit");
+            }
+            Poll::Pending => {
+                assert!(!closed, "[{raw}] CLOSED: Pending after disallow_write completed");
+                assert!(left == 0, "[{raw}] PROGRESS: Pending although {left} units of credit are available");
+            }
+        }
+        drop(d);
+    });
+    std::println!("VERIF_LOOM scenario={raw_out} executions={}", states.load(core::sync::atomic::Ordering::Relaxed));
+}
